@@ -84,7 +84,7 @@ NotaryStates(k, e) ==
        \* (the Audit contract never collected votes: its storage has no ballots, cf. the recorded dumps)
        \cup { {I("notary", "", "", "true")} \cup b : b \in (IF k \in PurgeKinds
                                                             THEN { {} } \cup { {I("ballots", "", "", b)} : b \in
-                                                                   {"empty", "stale", "fresh", "mixed", "many", "manyfresh", "edge20", "edge21"} }
+                                                                   {"empty", "stale", "fresh", "mixed", "mixedrev", "freshmid", "many", "manyfresh", "edge20", "edge21"} }
                                                             ELSE { {} }) }
   ELSE { {} }
 
